@@ -30,7 +30,9 @@ def demo(seed_dir):
 def main():
     sid = sys.argv[1]
     ids = sys.argv[2:] or [sid[:3]]
-    src = f"/tmp/seed/{sid}/seed"
+    root = os.environ.get("SEED_ROOT", "/tmp/seed")
+    suffix = os.environ.get("SEED_SUFFIX", "")
+    src = f"{root}/{sid}/seed"
     if not os.path.isdir(L.REPO):
         L.setup()
     L.sync_verif()
@@ -48,12 +50,12 @@ def main():
     print(f"{sid}: repo tests with change: {tests} ({'ok' if good else 'FAIL'}); demo with change: {'passes' if d_with else 'fails'}; demo without: {'passes' if d_without else 'fails'}; confirmed={confirmed}")
     for p, x in checks.items():
         print(f"   {p}: {'CAUGHT' if x['exit']==1 else ('inconclusive' if x['exit']==2 else 'MISSED')} in {x['seconds']}s  {x['message'][:260]}")
-    dst = f"{L.SRC}/seeded/{sid}"
+    dst = f"{L.SRC}/seeded/{sid}{suffix}"
     os.makedirs(dst, exist_ok=True)
     for f in os.listdir(src):
         shutil.copy(os.path.join(src, f), dst)
     meta = {
-        "id": sid, "property": sid[:3],
+        "id": sid + suffix, "property": sid[:3],
         "confirmed": confirmed,
         "repo_tests_with_change": tests,
         "demo_with_change": det_with, "demo_without_change": det_without,
